@@ -164,7 +164,7 @@ def extract_scenario(lines, scs, scn, dest):
             return dest
     return None
 
-def gen_behaviours(cfg, module, out, simulate=None, timeout=900, seed=1, cap=None):
+def gen_behaviours(cfg, module, out, simulate=None, timeout=900, seed=1, cap=None, header_extra=None):
     """TLC as generator: transition cover (BFS under EdgeView) or -simulate; writes header + one behaviour per line"""
     md = tempfile.mkdtemp(prefix='tlcgen', dir=WORK)
     extra = ('-simulate num=%d -depth 400 -seed %d' % (simulate, seed)) if simulate else ''
@@ -184,6 +184,8 @@ def gen_behaviours(cfg, module, out, simulate=None, timeout=900, seed=1, cap=Non
     if cap and len(pre) > cap:
         import random
         random.Random(seed).shuffle(pre); pre = pre[:cap]
+    if header_extra:
+        h = json.loads(hdr); h.update(header_extra); hdr = json.dumps(h)
     with open(out, 'w') as f:
         f.write(hdr + '\n')
         for p in pre: f.write(p + '\n')
